@@ -60,12 +60,12 @@ var runners = map[string]core.Runner{
 	"C04": c04.Runner,
 	"C05": c04.Runner,
 	"C06": c04.Runner,
-	"C07": c07.Runner,
+	"C07": withStage(c07.Runner, c08dhcp.FrameStage),
 	"C08": c08.Runner,
 	"C09": c09.Runner,
 	"C10": c10.Runner,
 	"C11": c11.Runner,
-	"C12": c11.Runner,
+	"C12": withStage(c11.Runner, c08dhcp.FrameStage),
 	"C13": c13.Runner,
 	"C18": c18.Runner,
 	"C03Dhcp": c03dhcp.Runner,
@@ -79,6 +79,21 @@ var runners = map[string]core.Runner{
 	"C08dns": c08dns.Runner,
 	"C08dhcp": c08dhcp.Runner,
 	"C08hnd": c08hnd.Runner,
+}
+
+// withStage: the property's own run followed by a stage of another runner (its lines are evaluated by that runner).
+func withStage(base, stage core.Runner) core.Runner {
+	return core.Runner{Gen: func(c *core.Ctx) {
+		base.Gen(c)
+		rule := c.Res.Rule
+		stage.Gen(c)
+		c.Res.Rule = rule + " || " + c.Res.Rule
+	}, Eval: func(c *core.Ctx, l string) *core.Case {
+		if cs := stage.Eval(c, l); cs != nil {
+			return cs
+		}
+		return base.Eval(c, l)
+	}}
 }
 
 func main() {
